@@ -267,38 +267,50 @@ func init() {
 		total0 := LitM{"no active/pending silence found", func(l Lit) bool {
 			return l.Pos && strings.HasPrefix(l.Atom, "((len(") && strings.HasSuffix(l.Atom, " == 0)") && strings.Contains(l.Atom, q1+"#0") && strings.Contains(l.Atom, q2+"#0")
 		}}
-		// verdict
+		// verdict: "at least one active silence id" — returned as that comparison, or as true / false under it
 		var active ssa.Value
+		isState0 := func(s string) LitM {
+			return LitM{"state==" + s, func(l Lit) bool {
+				return l.Pos && strings.HasPrefix(l.Atom, "(am/silence.getState(") && strings.HasSuffix(l.Atom, `, (*am/silence.Silences).nowUTC(recv.silences)) == "`+s+`")`)
+			}}
+		}
+		// the list of active ids: a list compared with empty whose elements are only added for active silences
+		for _, in := range AllInstrs(fn) {
+			c, ok := in.(*ssa.Call)
+			if !ok || !isBuiltinCall("len")(in) {
+				continue
+			}
+			_, parts := e.AppendParts(c.Call.Args[0])
+			if len(parts) == 0 {
+				continue
+			}
+			all := true
+			for _, p := range parts {
+				if !e.OnlyUnder(p.Call, isState0("active")) {
+					all = false
+				}
+			}
+			if all {
+				active = c.Call.Args[0]
+			}
+		}
+		o.Require(active != nil, "verdict", "Mutes has no verdict derived from the active silence ids", nil)
+		noActive := L("(len("+e.X(fn, active)+") == 0)", true)
 		for _, rs := range e.ResultStores(fn, 0) {
 			if k, ok := rs.Val.(*ssa.Const); ok && k.Value != nil && k.Value.Kind() == constant.Bool {
 				if constant.BoolVal(k.Value) {
-					o.Fail("const-true", "Mutes returns a constant true", rs.Instr)
+					o.Site(rs.Instr, "returns true")
+					o.Guarded(rs.Instr, "const-true", "answering 'muted'", noActive.Neg())
 					continue
 				}
 				o.Site(rs.Instr, "returns false")
-				ok1 := e.OnlyUnder(rs.Instr, VE, total0) && e.OnlyUnder(rs.Instr, cnt0, total0)
-				o.Check(ok1, "false-guard", "Mutes answers 'not muted' without evaluation although the cache may be stale: this exit needs (version unchanged ∧ nothing cached) or (no active/pending silence found)", rs.Instr)
+				ok1 := e.OnlyUnder(rs.Instr, noActive) || e.OnlyUnder(rs.Instr, VE, total0) && e.OnlyUnder(rs.Instr, cnt0, total0)
+				o.Check(ok1, "false-guard", "Mutes answers 'not muted' without evaluation although the cache may be stale: this exit needs (version unchanged ∧ nothing cached), (no active/pending silence found) or (no active silence id)", rs.Instr)
 				continue
 			}
-			// len(activeIDs) > 0
-			b, ok := rs.Val.(*ssa.BinOp)
-			good := false
-			if ok {
-				x, y := b.X, b.Y
-				if b.Op.String() == "<" {
-					x, y = y, x
-				}
-				if (b.Op.String() == ">" || b.Op.String() == "<") && isIntConst(y, 0) && isLenCall(x) {
-					active = x.(*ssa.Call).Call.Args[0]
-					good = true
-				}
-				if b.Op.String() == "!=" && isIntConst(y, 0) && isLenCall(x) {
-					active = x.(*ssa.Call).Call.Args[0]
-					good = true
-				}
-			}
+			vl := e.CondLit(fn, rs.Val)
 			o.Site(rs.Instr, "verdict "+e.X(fn, rs.Val))
-			o.Check(good, "verdict-shape", "the verdict must be 'at least one active silence id', is "+e.X(fn, rs.Val), rs.Instr)
+			o.Check(vl.Atom == "(len("+e.X(fn, active)+") == 0)" && !vl.Pos, "verdict-shape", "the verdict must be 'at least one active silence id', is "+e.X(fn, rs.Val), rs.Instr)
 		}
 		o.Require(active != nil, "verdict", "Mutes has no verdict derived from the active silence ids", nil)
 		isState := func(s string) LitM {
